@@ -139,6 +139,7 @@ pub fn gen_giant_inbound(r: &mut Rng, seq: u8) -> Plan {
                         bind: Some(vec![(0xfc, 0)]),
                         values: vec![PVal::Skip],
                         raw: None,
+                    stale_types: None,
                     },
                 },
                 act: Act::Program(simple_ok_program()),
@@ -178,6 +179,7 @@ pub fn gen_giant_inbound(r: &mut Rng, seq: u8) -> Plan {
                             form: 0,
                         }],
                         raw: None,
+                    stale_types: None,
                     },
                 },
                 act: Act::Program(simple_ok_program()),
@@ -305,6 +307,7 @@ fn gen_c01(r: &mut Rng, t: Tier, job: u64) -> Plan {
                             bind: Some(vec![(0xfc, 0)]),
                             values: vec![PVal::Skip],
                             raw: None,
+                    stale_types: None,
                         },
                     },
                     act: Act::Program(simple_ok_program()),
@@ -581,6 +584,7 @@ pub fn c03() -> Simple {
             "framing",
             "panic-success",
             "end",
+            "decode-myc",
         ],
         gen: gen_c03,
         extra: Some(extra_c03),
@@ -620,6 +624,18 @@ fn gen_c05(r: &mut Rng, t: Tier, job: u64) -> Plan {
         // multi-packet request whose fragment ids start near (and pass) 255
         let seq = *r.pick(&[0u8, 1, 253, 254, 255, 252, 127]);
         return gen_giant_inbound(r, seq);
+    }
+    let giants_out = if t == Tier::Quick { 24 } else { 600 };
+    if job < giants + giants_out {
+        // responses of k*(2^24-1)+d bytes (d = 0 included): continuation and terminating packets
+        // must keep counting
+        let mut p = super::props3::gen_c04_plan(r, t, job);
+        for c in p.cmds.iter_mut() {
+            if r.chance(1, 2) {
+                c.seq = gen_seq(r, true);
+            }
+        }
+        return p;
     }
     let mut o = ConvOpts::std();
     o.random_seq = true;
